@@ -145,6 +145,9 @@ class BVExtractConstants:
             diff = bw - len(constant)
             if diff > 0:
                 constant = f"{'0' * diff}{constant}"
+        elif node[1].data.startswith('#x'):
+            val, bw = get_bv_constant_value(node[1])
+            constant = bin(val)[2:].zfill(bw)
         else:
             assert node[1].data.startswith('#b')
             constant = node[1][2:]
